@@ -2,6 +2,8 @@ package main
 
 import (
 	"math"
+	"reflect"
+	"regexp"
 	"sort"
 	"strconv"
 	"strings"
@@ -12,7 +14,9 @@ import (
 
 // C12 (purity): families `c12pure` (label c12, modelled) and `c12struct` (label c12s, direct only).
 //
-//   case  (c12 ENV SCHEMA (coll B) (calls OP...))        OP ::= (u V) | (v V) | (s V) | (c V)
+//   case  (c12 ENV SCHEMA (coll B) (calls OP...))        OP ::= (u V) | (v V) | (s V) | (c V) | (cs SCHEMA2)
+//         (cs SCHEMA2): ValidateCompatibility with a SCHEMA as argument, built afresh for every evaluation; its
+//         outcome class is projected to `t` (the verdict itself is C15's business), the purity flags are not.
 //   obs   (r (coll B) (CLS same|differs kept|mutated)... (state same|changed) (after same|differs))
 //
 // Every call of the history is evaluated c12Reps times on ONE schema instance, each time on a FRESHLY
@@ -111,6 +115,23 @@ func c12CanonSx(n *sx.Node) *sx.Node {
 
 // c12Eval runs one call and returns the projected result and whether the argument was left alone.
 func c12Eval(s schema.Type, o *sx.Node) (res string, kept bool) {
+	if o.Head() == "cs" {
+		var arg schema.Type
+		before := ""
+		cls := c04Class(func() error {
+			arg = buildSchema(o.List[1])
+			before = c12State(arg)
+			return s.ValidateCompatibility(arg)
+		})
+		kept = true
+		if arg != nil && cls.Atom != "panic" {
+			func() {
+				defer func() { _ = recover() }()
+				kept = c12State(arg) == before
+			}()
+		}
+		return cls.Atom, kept
+	}
 	arg := valFromSx(o.List[1])
 	before := c12Canon(arg)
 	var val any
@@ -138,7 +159,10 @@ func c12Eval(s schema.Type, o *sx.Node) (res string, kept bool) {
 	return res, c12Canon(arg) == before
 }
 
-func c12RunHistory(mk func() schema.Type, calls []*sx.Node, probes []*sx.Node, classOf func(string) *sx.Node) []*sx.Node {
+// mkLit (may be nil): the same schema with its objects NOT built by a constructor (struct literals: the decoded-
+// default cache still empty).  Every call of the history and every probe is evaluated once on such an instance,
+// before anything else has touched it, and must answer like the constructor-built fresh instance.
+func c12RunHistory(mk func() schema.Type, calls []*sx.Node, probes []*sx.Node, classOf func(string) *sx.Node, mkLit func() schema.Type) []*sx.Node {
 	s := mk()
 	state0 := c12State(s)
 	var out []*sx.Node
@@ -158,6 +182,9 @@ func c12RunHistory(mk func() schema.Type, calls []*sx.Node, probes []*sx.Node, c
 			cls = first[:i]
 		}
 		n := sx.L(classOf(cls))
+		if o.Head() == "cs" && (cls == "ok" || cls == "err") {
+			n = sx.L(sx.A("t"))
+		}
 		if same {
 			n.Append(sx.A("same"))
 		} else {
@@ -198,6 +225,21 @@ func c12RunHistory(mk func() schema.Type, calls []*sx.Node, probes []*sx.Node, c
 		}
 		if !common {
 			after = "differs"
+		}
+		if mkLit != nil {
+			// first use of an instance whose caches are still empty (one instance per call: nothing came before)
+			lit := mkLit()
+			a, _ := c12Eval(lit, o)
+			if !freshR[a] {
+				again := false // a map-order dependent call (D19) has several results: look at more of them
+				for i := 0; i < c12Reps && !again; i++ {
+					b, _ := c12Eval(fresh, o)
+					again = b == a
+				}
+				if !again {
+					after = "differs"
+				}
+			}
 		}
 	}
 	out = append(out, sx.L(sx.A("after"), sx.A(after)))
@@ -258,16 +300,296 @@ func c12Case(sc c04Schema, calls []*sx.Node) *sx.Node {
 	return sx.L(sx.A("c12"), mkEnv(sc.ext, sc.s, calls), sc.s, sx.L(sx.A("coll"), sx.B(coll)), l)
 }
 
+// ---- D72: keys whose texts differ but which convert to one key ("1" / "01" / "+1" under integer keys) ----
+
+var c12Digits = regexp.MustCompile(`^[0-9]{1,17}$`)
+
+// c12IntLike: the decimal text of a key that an integer key schema reads as a non-negative integer.
+func c12IntLike(k *sx.Node) (string, bool) {
+	if !k.IsList() || len(k.List) != 3 || k.List[1].IsList() {
+		return "", false
+	}
+	switch k.Head() {
+	case "i":
+		if c12Digits.MatchString(k.List[2].Atom) {
+			return k.List[2].Atom, true
+		}
+	case "s":
+		if c12Digits.MatchString(k.List[2].Str) {
+			return strconv.FormatUint(func() uint64 { z, _ := strconv.ParseUint(k.List[2].Str, 10, 64); return z }(), 10), true
+		}
+	}
+	return "", false
+}
+
+func c12MapCandidates(v *sx.Node, pred func(*sx.Node) bool) int {
+	if !v.IsList() {
+		return 0
+	}
+	n := 0
+	if v.Head() == "m" && pred(v) {
+		n++
+	}
+	for _, c := range v.List {
+		n += c12MapCandidates(c, pred)
+	}
+	return n
+}
+
+// c12RewriteMap returns a copy of v in which the k-th map satisfying pred is replaced by f(map).
+func c12RewriteMap(v *sx.Node, pred func(*sx.Node) bool, k *int, f func(*sx.Node) *sx.Node) *sx.Node {
+	if !v.IsList() {
+		return v
+	}
+	if v.Head() == "m" && pred(v) {
+		*k--
+		if *k == -1 {
+			return f(v)
+		}
+	}
+	out := sx.L()
+	for _, c := range v.List {
+		out.Append(c12RewriteMap(c, pred, k, f))
+	}
+	return out
+}
+
+func c12OpenMap(m *sx.Node) bool {
+	t := m.List[1].String()
+	return m.List[2].Atom == "0" && (t == tAnyMap.String() || t == tStrMap.String())
+}
+
+// c12CollideByValue adds, to one map of the value that has an integer-like key, a second key that is written
+// differently but converts to the same key under an integer key schema ("7" -> "07", "+7", int64 7; int64 7 -> "07" ...).
+func c12CollideByValue(r *Rng, v *sx.Node) (*sx.Node, bool) {
+	pred := func(m *sx.Node) bool {
+		if !c12OpenMap(m) {
+			return false
+		}
+		for _, e := range m.List[3:] {
+			if _, ok := c12IntLike(e.List[0]); ok {
+				return true
+			}
+		}
+		return false
+	}
+	n := c12MapCandidates(v, pred)
+	if n == 0 {
+		return nil, false
+	}
+	k := r.Intn(n)
+	done := false
+	out := c12RewriteMap(v, pred, &k, func(m *sx.Node) *sx.Node {
+		var cands []*sx.Node
+		for _, e := range m.List[3:] {
+			if _, ok := c12IntLike(e.List[0]); ok {
+				cands = append(cands, e)
+			}
+		}
+		e := pick(r, cands)
+		txt, _ := c12IntLike(e.List[0])
+		alts := []*sx.Node{vS("0" + txt), vS("+" + txt), vS("00" + txt)}
+		if m.List[1].String() == tAnyMap.String() {
+			z, _ := strconv.ParseInt(txt, 10, 64)
+			alts = append(alts, vI("i64", z), vS(txt))
+		}
+		var fresh []*sx.Node
+		for _, a := range alts {
+			dup := false
+			for _, x := range m.List[3:] {
+				if x.List[0].String() == a.String() {
+					dup = true
+				}
+			}
+			if !dup {
+				fresh = append(fresh, a)
+			}
+		}
+		if len(fresh) == 0 {
+			return m
+		}
+		// the value of another entry when there is one (the two readings of the key then differ visibly)
+		val := pick(r, m.List[3:]).List[1]
+		done = true
+		cp := sx.L(m.List...)
+		return cp.Append(sx.L(pick(r, fresh), val))
+	})
+	return out, done
+}
+
+// c12CorruptOneEntry: one entry of a map that has at least two gets an arbitrary wrong value (the verdict on such
+// a map must not depend on which entry the runtime yields first).
+func c12CorruptOneEntry(r *Rng, v *sx.Node) (*sx.Node, bool) {
+	pred := func(m *sx.Node) bool { return c12OpenMap(m) && len(m.List) >= 5 }
+	n := c12MapCandidates(v, pred)
+	if n == 0 {
+		return nil, false
+	}
+	k := r.Intn(n)
+	out := c12RewriteMap(v, pred, &k, func(m *sx.Node) *sx.Node {
+		i := 3 + r.Intn(len(m.List)-3)
+		cp := sx.L(m.List...)
+		cp.List[i] = sx.L(m.List[i].List[0], pick(r, wrongValues))
+		return cp
+	})
+	return out, true
+}
+
+// ---- schemas as arguments of ValidateCompatibility ----
+
+func c12HasHead(s *sx.Node, head string) bool {
+	if !s.IsList() {
+		return false
+	}
+	if s.Head() == head {
+		return true
+	}
+	for _, c := range s.List {
+		if c12HasHead(c, head) {
+			return true
+		}
+	}
+	return false
+}
+
+func c12HasRef(s *sx.Node) bool {
+	if !s.IsList() {
+		return false
+	}
+	if s.Head() == "ref" {
+		return true
+	}
+	for _, c := range s.List {
+		if c12HasRef(c) {
+			return true
+		}
+	}
+	return false
+}
+
+var c12PerturbKinds = map[string]bool{"enum_int": true, "enum_str": true, "int": true, "string": true, "list": true, "map": true, "object": true}
+
+func c12CountKinds(s *sx.Node) int {
+	if !s.IsList() {
+		return 0
+	}
+	n := 0
+	if c12PerturbKinds[s.Head()] {
+		n++
+	}
+	for _, c := range s.List {
+		n += c12CountKinds(c)
+	}
+	return n
+}
+
+// c12Perturb: a copy of the schema with one node changed (an enum value added / dropped / named, bounds moved,
+// a property dropped): the argument of a schema-vs-schema compatibility call.
+func c12Perturb(r *Rng, s *sx.Node, k *int) *sx.Node {
+	if !s.IsList() {
+		return s
+	}
+	hit := false
+	if c12PerturbKinds[s.Head()] {
+		*k--
+		hit = *k == -1
+	}
+	out := sx.L()
+	for _, c := range s.List {
+		out.Append(c12Perturb(r, c, k))
+	}
+	if !hit {
+		return out
+	}
+	switch s.Head() {
+	case "enum_int", "enum_str":
+		i := 1
+		foreign := sx.L(sx.I(77), none())
+		if s.Head() == "enum_str" {
+			i = 2
+			foreign = sx.L(sx.S("nope"), none())
+		}
+		vals := sx.L(out.List[i].List...)
+		switch r.Intn(3) {
+		case 0:
+			vals.Append(foreign)
+		case 1:
+			if len(vals.List) > 1 {
+				vals.List = vals.List[:len(vals.List)-1]
+			}
+		default:
+			if len(vals.List) > 0 {
+				j := r.Intn(len(vals.List))
+				vals.List[j] = sx.L(vals.List[j].List[0], dDisp(sp("Other name"), nil, nil))
+			}
+		}
+		out.List[i] = vals
+	case "int":
+		out.List[1], out.List[2] = sx.I(1000), sx.I(2000)
+	case "string":
+		out.List[1] = sx.I(50)
+	case "list":
+		out.List[2] = sx.I(100)
+	case "map":
+		out.List[3] = sx.I(100)
+	case "object":
+		if ps := out.List[3]; len(ps.List) > 0 {
+			out.List[3] = sx.L(ps.List[:len(ps.List)-1]...)
+		}
+	}
+	return out
+}
+
+func c12SchemaArg(r *Rng, s *sx.Node) *sx.Node {
+	n := c12CountKinds(s)
+	if n == 0 || r.Chance(35) {
+		return s // the schema against (a fresh copy of) itself
+	}
+	k := r.Intn(n)
+	p := c12Perturb(r, s, &k)
+	if !c12Buildable(p) {
+		return s // e.g. the inlined discriminator of a one-of member was the property dropped: the constructors refuse it
+	}
+	return p
+}
+
+// c12Buildable: the public constructors accept the descriptor (they panic on a mis-built schema, by contract).
+func c12Buildable(s *sx.Node) (ok bool) {
+	defer func() {
+		if r := recover(); r != nil {
+			ok = false
+		}
+	}()
+	buildSchema(s)
+	return true
+}
+
 func c12History(r *Rng, sc c04Schema, n int) []*sx.Node {
 	tab := scopeCtx{}
 	if sc.s.Head() == "scope" {
 		tab = scopeTable(sc.s)
 	}
 	pool := c04Pool()
+	schemaArgs := !c12HasRef(sc.s) && sc.ext == nil
 	var calls []*sx.Node
 	for len(calls) < n {
 		raw := rawFor(r, sc.s, tab, 3)
-		switch r.Intn(10) {
+		switch r.Intn(13) {
+		case 10: // two spellings of one key
+			if v, ok := c12CollideByValue(r, raw); ok {
+				calls = append(calls, op(pick(r, []string{"u", "u", "c"}), v))
+			}
+			continue
+		case 11: // one bad entry among several
+			if v, ok := c12CorruptOneEntry(r, raw); ok {
+				calls = append(calls, op(pick(r, []string{"c", "c", "u"}), v))
+			}
+			continue
+		case 12: // a schema as the argument
+			if schemaArgs {
+				calls = append(calls, op("cs", c12SchemaArg(r, sc.s)))
+			}
+			continue
 		case 0, 1, 2:
 			calls = append(calls, op("u", raw))
 		case 3:
@@ -314,6 +636,16 @@ func init() {
 			emit(c12Case(c04Schema{s: i1}, []*sx.Node{op("u", vM(tAnyMap, vI("i64", 1), vS("a"), vS("1"), vS("b"))), op("c", vM(tAnyMap, vI("i64", 1), vS("a"), vS("1"), vS("b")))}))
 			emit(c12Case(c04Schema{s: dAny()}, []*sx.Node{op("u", vM(tAnyMap, vI("i64", 1), vS("a"), vU("u8", 1), vS("b"))), op("s", vM(tAnyMap, vI("i64", 1), vS("a"), vU("u8", 1), vS("b")))}))
 			emit(c12Case(c04Schema{s: dMap(dString(nil, nil, nil), dAny(), nil, nil)}, []*sx.Node{op("u", vM(tAnyMap, vI("i64", 1), vS("a"), vS("1"), vS("b")))}))
+			// D72 witnesses: two spellings of one integer key
+			i2 := dMap(dInt(nil, nil, nil), dString(nil, nil, nil), nil, nil)
+			for _, alt := range []string{"01", "+1", "001"} {
+				w := vM(tStrMap, vS("1"), vS("a"), vS(alt), vS("b"))
+				emit(c12Case(c04Schema{s: i2}, []*sx.Node{op("u", w), op("c", w), op("u", vM(tAnyMap, vS("1"), vS("a")))}))
+			}
+			emit(c12Case(c04Schema{s: dList(i2, nil, nil)}, []*sx.Node{op("u", vSl(tAnySlice, vM(tAnyMap, vS("7"), vS("a"), vS("+7"), vS("b"))))}))
+			// schema arguments: an enum against itself with one more / one fewer value, unnamed values
+			e1 := dEnumInt([]int64{1, 2, 3, 4}, nil)
+			emit(c12Case(c04Schema{s: e1}, []*sx.Node{op("cs", e1), op("cs", dEnumInt([]int64{1, 2, 3, 4, 77}, nil)), op("cs", dEnumInt([]int64{1, 2}, nil))}))
 			for _, sc := range safe {
 				for i := 0; i < nPer; i++ {
 					emit(c12Case(sc, c12History(r, sc, 1+r.Intn(12))))
@@ -340,7 +672,15 @@ func init() {
 			calls := p.List[4].List[1:]
 			probes := []*sx.Node{op("u", vM(tAnyMap)), op("u", vM(tStrMap)), op("u", vNil())}
 			res := sx.L(sx.A("r"), p.List[3])
-			res.Append(c12RunHistory(mk, calls, probes, func(c string) *sx.Node { return sx.A(c) })...)
+			var mkLit func() schema.Type
+			if c12HasHead(p.List[2], "object") && !c12HasHead(p.List[2], "scope") && !c12HasHead(p.List[2], "ref") {
+				mkLit = func() schema.Type {
+					buildLiteralObjects = true
+					defer func() { buildLiteralObjects = false }()
+					return buildWithEnv(p.List[1], p.List[2])
+				}
+			}
+			res.Append(c12RunHistory(mk, calls, probes, func(c string) *sx.Node { return sx.A(c) }, mkLit)...)
 			return res
 		},
 	}
@@ -391,10 +731,58 @@ func init() {
 					emit(sx.L(sx.A("c12s"), sx.S(name), l))
 				}
 			}
+			// generated struct-mapped schemas over the struct family of xstruct_types.go (T and *T, embedded
+			// structs and embedded POINTERS, pointer fields, slices and maps of structs): raw inputs from the
+			// map-based twin, native values by Go type (nil pointers at every pointer position), arbitrary values
+			nx := 60
+			if tier == "thorough" {
+				nx = 900
+			}
+			xnames := []string{"XInner", "XTwo", "XScalars", "XPtrs", "XNested", "XDeep", "XColl", "XEmbedded", "XEmbPtr", "XEmbPtr", "XLoose"}
+			for i := 0; i < nx; i++ {
+				g := &xgen{r: r}
+				name := xnames[i%len(xnames)]
+				ptr := r.Bool()
+				s := g.object("Root", ptr, name)
+				annotateX(s)
+				er := eraseX(s)
+				xn := &xnat{r: r, sc: scopeCtx{}}
+				t := structTypes[name]
+				l := sx.L(sx.A("calls"))
+				for j := 0; j < 3; j++ {
+					raw := rawFor(r, er, scopeCtx{}, 3)
+					l.Append(op("u", raw))
+					if r.Chance(40) {
+						l.Append(op(pick(r, []string{"u", "c"}), mutate(r, raw)))
+					}
+				}
+				for j := 0; j < 4; j++ {
+					v := xn.valFor(t, s, 2)
+					var a any = v.Interface()
+					if ptr {
+						pv := reflect.New(t)
+						pv.Elem().Set(v)
+						a = pv.Interface()
+					}
+					nv := valSx(a)
+					l.Append(op("v", nv), op("s", nv))
+					if j == 0 {
+						l.Append(op("c", nv))
+					}
+				}
+				for _, a := range xn.arbitrary(s) {
+					l.Append(op(pick(r, []string{"v", "s"}), a))
+				}
+				emit(sx.L(sx.A("c12s"), sx.L(sx.A("x"), mkEnv(nil, s, nil), s), l))
+			}
 		},
 		Run: func(p *sx.Node) *sx.Node {
-			mk, ok := c04StructSchemas[p.List[1].Str]
-			if !ok {
+			var mk func() schema.Type
+			if p.List[1].IsList() { // (x ENV XSCHEMA)
+				mk = func() schema.Type { return buildWithEnv(p.List[1].List[1], p.List[1].List[2]) }
+			} else if f, ok := c04StructSchemas[p.List[1].Str]; ok {
+				mk = f
+			} else {
 				return sx.L(sx.A("bad"), sx.S("unknown struct schema"))
 			}
 			probes := []*sx.Node{op("u", vM(tAnyMap)), op("u", vM(tStrMap, vS("n"), vI("i64", 2))), op("u", vNil())}
@@ -404,7 +792,7 @@ func init() {
 					return sx.A("t")
 				}
 				return sx.A(c)
-			})...)
+			}, nil)...)
 			return res
 		},
 	}
